@@ -268,6 +268,10 @@ def part_symtext(ctx):
         ("one number of up to 10 integer digits in a loop next to a string (field wider than 20 columns)", {"blk": {"atom_x": [x, 2.5], "atom_label": ["C 1", "H2"]}}),
         ("scalars", {"blk": {"cell_a": x, "count_n": n, "name_s": "two words", "name_t": "plain"}}),
         ("loop of floats, strings with blanks and ints", {"blk": {"atom_x": [x, y], "atom_label": ["C 1", "H2"], "atom_n": [n, 7]}}),
+        ("scalar items whose names have 1 to 74 characters (numbers, plain and quoted strings)",
+         {"blk": dict([(("k%02d_" % k + "diffrn_measured_fraction_theta_full_refine_ls_extinction_coefficient_x")[:k] if k > 1 else "q",
+                        (x if k == 34 else n if k == 33 else "two words" if k % 2 else "plain")) for k in (1, 2, 5, 16, 31, 32, 33, 34, 35, 48, 74)]
+                      + [("diffrn_measured_fraction_theta_full", y), ("diffrn_reflns_theta_full", 25.5)])}),
         ("two blocks, scalar + two loops of different length", {"first": {"a_x": [x, 1.5, y], "a_s": ["p", "q r", "s"], "b_n": [n], "title": "some text"},
                                                                 "second": {"c_v": y, "c_w": [2, 3]}}),
     ]
